@@ -219,10 +219,11 @@ def extract (tb : TB α) (rk ck : Key) : Except Err (TB α) := do
   let pairs ← keyToBlockSlices tb ck true
   let bs ← sliceBlocks tb rps pairs
   let newRows := match rps with | none => tb.rows | some ps => ps.length
-  -- from_blocks(..., shape_reference=self._shape): with no block left the OLD row count is kept (F28)
+  -- from_blocks(..., shape_reference=self._shape); with no block left the row key is applied to the
+  -- row count explicitly (repaired: was the old row count)
   match fromBlocks bs (some tb.rows) with
   | .error e => .error e
-  | .ok r => .ok (if bs.isEmpty then r else { r with rows := newRows })
+  | .ok r => .ok { r with rows := newRows }
 
 /-! ### the shared "walk the blocks with an ascending iterator of targets" generators -/
 
